@@ -502,7 +502,9 @@ func cmdConc(args []string) {
 	stats := fs.String("stats", "", "")
 	fs.Parse(args)
 	runtime.GOMAXPROCS(*procs)
-	privKinds := []string{"uint8:fan1", "alpha/string:fan1x", "int8:fan1", "alpha/bytes:fan2", "uint16:random", "float32:random", "collation/string/und:text", "compound/u8+u8:tuple"}
+	// short fill/drain cycles: every goroutine releases and acquires nodes of every class many times
+	privKinds := []string{"uint8:fan64", "alpha/string:fanb", "int8:fan64", "alpha/bytes:fan64", "uint16:fanb", "alpha/string:fan18",
+		"collation/string/und:han", "compound/u8+u8:tuple", "uint8:fan1", "float32:random", "alpha/bytes:fan2", "uint16:random"}
 	var wg sync.WaitGroup
 	type res struct{ lines, ops, panics int }
 	results := make([]res, 0)
